@@ -5,8 +5,7 @@
   Both functions first walk the subtree read-only and then change the store only through
   `namespaces_mut(node).insert(prefix, ns)` / `namespaces_mut(node).remove(prefix)`, i.e. through
   calls that are constructors of `Forest.Call`.  The read-only walk is the tree-level model
-  (`Model/Repair.lean`: `repairWalk`, `assignPrefixes`; `Model/Scope.lean`: `dedupFixups`,
-  `dedupFixupPrefixes`) applied to the erased root tree containing the node; paths are turned
+  (`Model/Repair.lean`: `repairWalk`, `assignPrefixes`; `Model/Scope.lean`: `dedupToRemove`) applied to the erased root tree containing the node; paths are turned
   into handles on the tree as it is before the first insertion / removal (the Rust collects the
   `Node`s first too).
 -/
@@ -111,9 +110,9 @@ def createMissingPrefixes (env : Env) (f : Forest) (node : Nat) : Forest × Env 
   else if !f.isElement node then (f, env, .err .notElement)
   else f.repairElementF env node
 
-/-- The removals `deduplicate_namespaces(node)` makes, in order: for every element (in the order
-    of its end edge) and every namespace found superfluous there, `remove(prefix)` for every
-    prefix the element binds to it (read before the first removal). -/
+/-- The removals one pass of `deduplicate_namespaces(node)` makes, in order: `remove(prefix)` for
+    every declaration found redundant during the traversal (nodes collected before the first
+    removal). -/
 def dedupCalls (env : Env) (f : Forest) (node : Nat) : List Call :=
   match f.rootOf? node with
   | none => []
@@ -125,14 +124,26 @@ def dedupCalls (env : Env) (f : Forest) (node : Nat) : List Call :=
       match t.at? path with
       | none => []
       | some sub =>
-        (dedupFixupPrefixes t (dedupFixups env path sub)).flatMap (fun fp =>
-          match r.handleAt fp.1 with
-          | some h => fp.2.map (fun pfx => Call.mapRemove .namespaces h pfx)
+        (dedupToRemove env path sub).flatMap (fun rm =>
+          match r.handleAt rm.1 with
+          | some h => [Call.mapRemove .namespaces h rm.2]
           | none => [])
 
-/-- `deduplicate_namespaces(node)`. -/
+/-- `while self.deduplicate_namespaces_pass(node) {}`. -/
+def dedupLoop (env : Env) (node : Nat) : Nat → Forest → Forest × Res
+  | 0, f => (f, .ok)
+  | fuel + 1, f =>
+    let calls := f.dedupCalls env node
+    if calls.isEmpty then (f, .ok)
+    else
+      match f.runCalls calls with
+      | (f', .ok) => dedupLoop env node fuel f'
+      | r => r
+
+/-- `deduplicate_namespaces(node)`: every pass that removes something removes a node of the tree,
+    so its size bounds the number of passes. -/
 def deduplicateNamespaces (env : Env) (f : Forest) (node : Nat) : Forest × Res :=
-  f.runCalls (f.dedupCalls env node)
+  dedupLoop env node (match f.rootOf? node with | some r => r.erase.size + 1 | none => 1) f
 
 end Forest
 end XotModel
